@@ -193,6 +193,9 @@ type End struct {
 	in, out *half
 	name    string
 	once    sync.Once
+	// OnSetWriteDeadline, if set, is called from SetWriteDeadline: a point inside
+	// Channel.WriteFcall after its entry checks and before anything is written
+	OnSetWriteDeadline func()
 }
 
 func NewPair(o Options) (*End, *End) {
@@ -247,6 +250,9 @@ func (e *End) SetReadDeadline(t time.Time) error {
 	return nil
 }
 func (e *End) SetWriteDeadline(t time.Time) error {
+	if f := e.OnSetWriteDeadline; f != nil {
+		f()
+	}
 	e.out.mu.Lock()
 	e.out.wdeadline = t
 	e.out.cond.Broadcast()
